@@ -128,6 +128,9 @@ func child(a lib.Args) {
 		for i := 0; i < nBoff; i++ {
 			cases = append(cases, genBoffCase(rng.Fork(), i))
 		}
+		for i := 0; i < nBoff/6; i++ {
+			cases = append(cases, genBoffJCase(rng.Fork(), i))
+		}
 	}
 	installHooks()
 	startLagMonitor()
@@ -138,6 +141,9 @@ func child(a lib.Args) {
 		case "loop":
 			oracleLoop(c, i, &out)
 			out.Distribution["loop:"+c.Loop]++
+			if c.Via != "" {
+				out.Distribution["via:pkg/"+c.Via]++
+			}
 			out.Distribution["cancel:"+c.Cancel.P]++
 			for k, s := range c.Sched {
 				if k > c.Cancel.I {
@@ -169,6 +175,10 @@ func child(a lib.Args) {
 					out.Distribution["established"]++
 				}
 			}
+		case "boffj":
+			oracleBoffJ(c, i, &out)
+			out.Distribution["boff-jitter-cases"]++
+			out.Distribution["boff-jitter-durations"] += len(c.Ds)
 		case "boff":
 			oracleBoff(c, i, &out)
 			out.Distribution["boff-cases"]++
